@@ -5,6 +5,7 @@ import IsalVerif.Impl.MhStream
   MurmurHash3_x64_128 (`Spec/Murmur3.lean`) resp. of the hand-written model the C10 theorems are about
   (`Mh.murmurTail`).
 -/
+set_option maxRecDepth 8000
 namespace IsalVerif.MurC
 open IsalVerif
 
@@ -42,5 +43,28 @@ theorem murmurTail_eq (tailBuffer : Bytes) (totalLen : UInt32) (hash : UInt64 ×
       tailArith (wordsLE64 (Mh.memcpy (List.replicate 16 0) 0 (tailBuffer.take (totalLen % 16).toUInt64.toNat)))[0]!
                 (wordsLE64 (Mh.memcpy (List.replicate 16 0) 0 (tailBuffer.take (totalLen % 16).toUInt64.toNat)))[1]!
                 totalLen.toUInt64 hash := rfl
+
+/-- state pair after one iteration of a loop-body program on the words of a 16-byte block (a shorter block, which the C
+    code never sees, leaves the state alone - as `Murmur3.murBlock` does) -/
+def iter (prog : List A) (h : UInt64 × UInt64) (b : Bytes) : UInt64 × UInt64 :=
+  match wordsLE64 b with
+  | k1 :: k2 :: _ => ((run prog ⟨0, 0, h.1, h.2⟩ k1 k2 0).h0, (run prog ⟨0, 0, h.1, h.2⟩ k1 k2 0).h1)
+  | _ => h
+
+/-- **the whole loop of `_murmur3_x64_128_block`**: folding the translated body over any list of blocks is the
+    MurmurHash3_x64_128 body over those blocks -/
+theorem canon_block_loop (bs : List Bytes) (h : UInt64 × UInt64) :
+    bs.foldl Murmur3.murBlock h = bs.foldl (iter canonBlock) h := by
+  induction bs generalizing h with
+  | nil => rfl
+  | cons b bs ih =>
+    simp only [List.foldl_cons]
+    have : Murmur3.murBlock h b = iter canonBlock h b := by
+      unfold iter
+      match hw : wordsLE64 b with
+      | [] => simp [Murmur3.murBlock, hw]
+      | [_] => simp [Murmur3.murBlock, hw]
+      | k1 :: k2 :: rest => exact canon_block_step h b k1 k2 rest hw 0
+    rw [this, ih]
 
 end IsalVerif.MurC
